@@ -123,15 +123,31 @@ pub fn case_hash(c: &Case) -> u64 {
 
 pub struct SweepOpts {
     pub threads: usize,
-    /// per-execution wall limit in seconds (a stuck worker is reported and the process exits)
+    /// per-execution wall limit in seconds
     pub wall_limit_s: u64,
-    /// called by the monitor when a worker is stuck: (family index in the plan, case index)
-    pub on_stuck: Box<dyn Fn(usize, u64) + Sync + Send>,
+    /// called by the monitor when an execution exceeds the wall limit: (family index in the
+    /// plan, case index). May return a violation to record. The stuck worker thread is
+    /// abandoned (it keeps spinning, parked for good if it ever returns) and replaced.
+    pub on_stuck: Box<dyn Fn(usize, u64) -> Option<Violation> + Sync + Send>,
     pub fam_no: usize,
     /// explore only every `stride`-th index starting at `offset` (1/0 = everything)
     pub stride: u64,
     pub offset: u64,
 }
+
+/// exit code used when too many executions are stuck and the run is aborted
+pub static STUCK_EXIT: AtomicU64 = AtomicU64::new(2);
+/// executions completed so far in this process (for the evidence written when aborting)
+pub static PROCESSED: AtomicU64 = AtomicU64::new(0);
+/// how many hung executions a single sweep tolerates (each one costs a spinning thread)
+pub const MAX_STUCK: usize = 6;
+/// set once the process has given up enumerating because too many executions hang
+pub static GAVE_UP: AtomicBool = AtomicBool::new(false);
+/// executions stopped through the kill switch so far in this process
+pub static KILLED: AtomicU64 = AtomicU64::new(0);
+pub const MAX_KILLED: usize = 24;
+/// hung executions abandoned so far in this process
+pub static ABANDONED: AtomicU64 = AtomicU64::new(0);
 
 pub fn threads() -> usize {
     std::env::var("VERIF_THREADS")
@@ -140,87 +156,181 @@ pub fn threads() -> usize {
         .unwrap_or_else(|| std::thread::available_parallelism().map(|n| n.get()).unwrap_or(8))
 }
 
+pub struct Slot {
+    idx: AtomicU64,
+    started: AtomicU64,
+    abandoned: AtomicBool,
+    finished: AtomicBool,
+    /// set by the monitor when the current execution exceeds the wall limit; the provider
+    /// answers `should_cancel_with_value` with a kill token so that a looping solve returns
+    kill: AtomicBool,
+}
+
+thread_local! {
+    static CURRENT_SLOT: std::cell::RefCell<Option<std::sync::Arc<Slot>>> = const { std::cell::RefCell::new(None) };
+}
+
+/// true if the monitor asked the execution running on this thread to stop
+pub fn kill_requested() -> bool {
+    CURRENT_SLOT.with(|s| s.borrow().as_ref().map_or(false, |sl| sl.kill.load(Ordering::Relaxed)))
+}
+
+struct Shared {
+    next: AtomicU64,
+    merged: Mutex<Acc>,
+    slots: Mutex<Vec<std::sync::Arc<Slot>>>,
+    n_items: u64,
+    chunk: u64,
+    stride: u64,
+    offset: u64,
+    fam_no: usize,
+    t0: Instant,
+}
+
+type Body = dyn Fn(u64, &Case, &mut Acc) + Sync;
+
+fn spawn_worker(sh: std::sync::Arc<Shared>, fam: &'static dyn Family, body: &'static Body) -> std::sync::Arc<Slot> {
+    let slot = std::sync::Arc::new(Slot {
+        idx: AtomicU64::new(u64::MAX),
+        started: AtomicU64::new(0),
+        abandoned: AtomicBool::new(false),
+        finished: AtomicBool::new(false),
+        kill: AtomicBool::new(false),
+    });
+    sh.slots.lock().unwrap().push(slot.clone());
+    let my = slot.clone();
+    std::thread::Builder::new()
+        .stack_size(64 << 20)
+        .spawn(move || {
+            CURRENT_SLOT.with(|s| *s.borrow_mut() = Some(my.clone()));
+            loop {
+                let start = sh.next.fetch_add(sh.chunk, Ordering::Relaxed);
+                if start >= sh.n_items {
+                    break;
+                }
+                let end = (start + sh.chunk).min(sh.n_items);
+                let mut acc = Acc::default();
+                for k in start..end {
+                    let idx = sh.offset + k * sh.stride;
+                    my.started.store(sh.t0.elapsed().as_millis() as u64, Ordering::SeqCst);
+                    my.idx.store(idx, Ordering::SeqCst);
+                    let r = std::panic::catch_unwind(std::panic::AssertUnwindSafe(|| {
+                        let case = fam.get(idx);
+                        body(idx, &case, &mut acc);
+                    }));
+                    my.idx.store(u64::MAX, Ordering::SeqCst);
+                    if my.kill.swap(false, Ordering::SeqCst) {
+                        acc.count("executions_stopped_by_kill_switch");
+                    }
+                    if my.abandoned.load(Ordering::SeqCst) {
+                        // declared stuck by the monitor: its case was already reported and a
+                        // replacement took over; never touch shared data again
+                        loop {
+                            std::thread::park();
+                        }
+                    }
+                    PROCESSED.fetch_add(1, Ordering::Relaxed);
+                    if r.is_err() {
+                        // a panic outside the guarded solver call is a bug of the harness, never a verdict
+                        eprintln!("MACHINERY ERROR: harness panicked at family {} index {idx}", sh.fam_no);
+                        std::process::exit(2);
+                    }
+                }
+                sh.merged.lock().unwrap().merge(acc);
+            }
+            my.finished.store(true, Ordering::SeqCst);
+        })
+        .unwrap();
+    slot
+}
+
 /// Runs `body(index, case, acc)` for every index of the family (restricted by
 /// stride/offset), on `threads` workers. Returns the merged accumulator.
-pub fn sweep(
-    fam: &dyn Family,
-    opts: &SweepOpts,
-    body: &(dyn Fn(u64, &Case, &mut Acc) + Sync),
-) -> Acc {
+pub fn sweep<'a>(fam: &'a (dyn Family + 'a), opts: &SweepOpts, body: &'a (dyn Fn(u64, &Case, &mut Acc) + Sync + 'a)) -> Acc {
+    if GAVE_UP.load(Ordering::SeqCst) {
+        let mut a = Acc::default();
+        a.count("sweep_skipped_after_giving_up");
+        return a;
+    }
     let len = fam.len();
     let stride = opts.stride.max(1);
     let n_items = if len > opts.offset { (len - opts.offset + stride - 1) / stride } else { 0 };
-    let next = AtomicU64::new(0);
-    let stop = AtomicBool::new(false);
-    let chunk: u64 = (n_items / (opts.threads as u64 * 16)).clamp(1, 256);
-    let slots: Vec<(AtomicU64, AtomicU64)> = (0..opts.threads)
-        .map(|_| (AtomicU64::new(u64::MAX), AtomicU64::new(0)))
-        .collect();
-    let t0 = Instant::now();
-    let merged = Mutex::new(Acc::default());
-    std::thread::scope(|sc| {
-        // monitor
-        let stop_ref = &stop;
-        let slots_ref = &slots;
-        let mon = sc.spawn(move || {
-            while !stop_ref.load(Ordering::Relaxed) {
-                std::thread::sleep(std::time::Duration::from_millis(200));
-                let now = t0.elapsed().as_millis() as u64;
-                for (idx, started) in slots_ref.iter() {
-                    let i = idx.load(Ordering::Relaxed);
-                    let s = started.load(Ordering::Relaxed);
-                    if i != u64::MAX && now > s + opts.wall_limit_s * 1000 {
-                        (opts.on_stuck)(opts.fam_no, i);
-                        std::process::exit(1);
+    // SAFETY: worker threads only use these references while the sweep runs; a worker that is
+    // abandoned because its execution hangs never touches them again (it parks forever), and
+    // the process ends with std::process::exit.
+    let fam_s: &'static (dyn Family + 'static) = unsafe { std::mem::transmute::<&'a (dyn Family + 'a), &'static (dyn Family + 'static)>(fam) };
+    let body_s: &'static Body = unsafe { std::mem::transmute::<&'a (dyn Fn(u64, &Case, &mut Acc) + Sync + 'a), &'static Body>(body) };
+    let sh = std::sync::Arc::new(Shared {
+        next: AtomicU64::new(0),
+        merged: Mutex::new(Acc::default()),
+        slots: Mutex::new(vec![]),
+        n_items,
+        chunk: (n_items / (opts.threads as u64 * 16)).clamp(1, 256),
+        stride,
+        offset: opts.offset,
+        fam_no: opts.fam_no,
+        t0: Instant::now(),
+    });
+    for _ in 0..opts.threads {
+        spawn_worker(sh.clone(), fam_s, body_s);
+    }
+    let mut stuck_here = 0usize;
+    loop {
+        std::thread::sleep(std::time::Duration::from_millis(if n_items < 5000 { 2 } else { 50 }));
+        let now = sh.t0.elapsed().as_millis() as u64;
+        let slots: Vec<std::sync::Arc<Slot>> = sh.slots.lock().unwrap().clone();
+        let mut all_done = true;
+        for sl in &slots {
+            if sl.abandoned.load(Ordering::SeqCst) || sl.finished.load(Ordering::SeqCst) {
+                continue;
+            }
+            all_done = false;
+            let i = sl.idx.load(Ordering::SeqCst);
+            let st = sl.started.load(Ordering::SeqCst);
+            if i != u64::MAX && now > st + opts.wall_limit_s * 1000 && sl.idx.load(Ordering::SeqCst) == i {
+                // first ask nicely: a solve that loops through propagate / provider calls returns
+                // as soon as it polls should_cancel_with_value
+                if !sl.kill.swap(true, Ordering::SeqCst) {
+                    // every execution that needs the kill switch costs wall_limit seconds: give up
+                    // on the enumeration when there are too many of them
+                    if KILLED.fetch_add(1, Ordering::SeqCst) as usize >= MAX_KILLED && !GAVE_UP.swap(true, Ordering::SeqCst) {
+                        eprintln!("NOTE: more than {MAX_KILLED} executions had to be stopped by the kill switch; the rest of the enumeration is abandoned");
+                        sh.next.store(u64::MAX / 2, Ordering::SeqCst);
+                        sh.merged.lock().unwrap().count("sweep_abandoned_too_many_hangs");
                     }
                 }
+                if now <= st + (opts.wall_limit_s + 5) * 1000 {
+                    continue;
+                }
+                sl.abandoned.store(true, Ordering::SeqCst);
+                stuck_here += 1;
+                ABANDONED.fetch_add(1, Ordering::SeqCst);
+                let v = (opts.on_stuck)(opts.fam_no, i);
+                {
+                    let mut m = sh.merged.lock().unwrap();
+                    m.count("executions_exceeding_wall_limit");
+                    if let Some(v) = v {
+                        m.violation(v);
+                    }
+                }
+                if ABANDONED.load(Ordering::SeqCst) as usize > MAX_STUCK {
+                    // too many spinning threads: stop handing out work, let the healthy workers
+                    // finish their chunk and return what was gathered so far
+                    if !GAVE_UP.swap(true, Ordering::SeqCst) {
+                        eprintln!("NOTE: more than {MAX_STUCK} executions exceeded the wall limit; the rest of the enumeration is abandoned");
+                    }
+                    sh.next.store(u64::MAX / 2, Ordering::SeqCst);
+                    sh.merged.lock().unwrap().count("sweep_abandoned_too_many_hangs");
+                } else {
+                    spawn_worker(sh.clone(), fam_s, body_s);
+                }
             }
-        });
-        let mut handles = vec![];
-        for t in 0..opts.threads {
-            let next = &next;
-            let merged = &merged;
-            let slots = &slots;
-            handles.push(
-                std::thread::Builder::new()
-                    .stack_size(64 << 20)
-                    .spawn_scoped(sc, move || {
-                        let mut acc = Acc::default();
-                        loop {
-                            let start = next.fetch_add(chunk, Ordering::Relaxed);
-                            if start >= n_items {
-                                break;
-                            }
-                            let end = (start + chunk).min(n_items);
-                            for k in start..end {
-                                let idx = opts.offset + k * stride;
-                                slots[t].1.store(t0.elapsed().as_millis() as u64, Ordering::Relaxed);
-                                slots[t].0.store(idx, Ordering::Relaxed);
-                                let r = std::panic::catch_unwind(std::panic::AssertUnwindSafe(|| {
-                                    let case = fam.get(idx);
-                                    body(idx, &case, &mut acc);
-                                }));
-                                if r.is_err() {
-                                    // a panic outside the guarded solver call is a bug of the harness, never a verdict
-                                    eprintln!("MACHINERY ERROR: harness panicked at family {} index {idx}", opts.fam_no);
-                                    std::process::exit(2);
-                                }
-                            }
-                            slots[t].0.store(u64::MAX, Ordering::Relaxed);
-                        }
-                        slots[t].0.store(u64::MAX, Ordering::Relaxed);
-                        merged.lock().unwrap().merge(acc);
-                    })
-                    .unwrap(),
-            );
         }
-        for h in handles {
-            h.join().unwrap();
+        if all_done {
+            break;
         }
-        stop.store(true, Ordering::Relaxed);
-        mon.join().unwrap();
-    });
-    let mut acc = merged.into_inner().unwrap();
+    }
+    let mut acc = std::mem::take(&mut *sh.merged.lock().unwrap());
     acc.finalize();
     acc
 }
